@@ -27,7 +27,8 @@ RULE = ('case = one real seeded run (families incl. -inf plateaus/islands so tha
         'weighted rows in original order with multiplicity floor(r) or floor(r)+1 (exactly floor(r) for integer r), '
         'no repeats for b <= 1, log_l/blobs of repeats identical, weights all -log n, weighted posterior and '
         'statistics unchanged. Ensemble: the summed multiplicities minus D*r, overall and in eight weight-quantile '
-        'groups, must stay inside the Bernstein bound at level 1e-9 (about 6.4 sigma for large variances). Non-trivial = (run, boost) pairs with >= 50 rows of fractional r and all draws '
+        'groups, must stay inside the Bernstein bound at level 1e-9 (about 6.4 sigma for large variances); rows whose '
+        'summed expectation over all draws is below 1e-12 must never appear. Non-trivial = (run, boost) pairs with >= 50 rows of fractional r and all draws '
         'completed; distinct by (case, state, boost).')
 ASSUMPTIONS = ['rows of the weighted posterior are pairwise distinct (C03), so returned rows identify their source',
                'false-alarm probability <= ~1e-8 per (run, boost): nine two-sided Bernstein-bound tests at 2e-9 each']
@@ -44,8 +45,16 @@ def gen_cases(tier, seed):
                                       vectorized=(i % 4 != 3))
         cfg = workloads.gen_cfg(rng, pspec, pool='none', n_batch=[100, 50, 16][i % 3], filepath=bool(i % 2))
         cfg['n_eff'] = int(rng.choice([300, 600, 1200]))
-        cases.append({'i': i, 'seed': seed, 'prob': pspec, 'cfg': cfg, 'state': ['final', 'discard', 'mid'][i % 3],
-                      'draws': 200 if tier == 'quick' else 1500})
+        case = {'i': i, 'seed': seed, 'prob': pspec, 'cfg': cfg, 'state': ['final', 'discard', 'mid'][i % 3],
+                'draws': 200 if tier == 'quick' else 1500}
+        if i % 4 == 0:
+            # a peaked likelihood with many live points: thousands of stored rows of negligible weight
+            case['prob'] = workloads.gen_problem(rng, family='gauss', d=3, prior='func', blobs='none', vectorized=True)
+            case['prob']['par']['sig'] = [0.02 * (h - l) for l, h in zip(case['prob']['lo'], case['prob']['hi'])]
+            case['cfg'] = dict(cfg, n_live=400, n_batch=100, n_networks=0, n_eff=500, periodic=None)
+            case['state'] = 'final'
+            case['extra_draws'] = 8000 if tier == 'quick' else 40000
+        cases.append(case)
     return cases
 
 
@@ -57,7 +66,7 @@ def run_case(spec):
     prob = workloads.Problem(spec['prob'])
     cfg = spec['cfg']
     obs = dict(draws=0, rows_returned=0, weighted_rows=0, zero_weight_rows=0, rows_with_fractional_r=0,
-               z_tests=0, resumed_samplers=0, file_backed_samplers=0, z_abs_max=0.0, bernstein_ratio_max=0.0, boosts_completed=0, repeats_seen=0)
+               z_tests=0, negligible_weight_row_draws=0, resumed_samplers=0, file_backed_samplers=0, z_abs_max=0.0, bernstein_ratio_max=0.0, boosts_completed=0, repeats_seen=0)
     viols = []
     worst = {}
     obs['file_backed_samplers'] = int(bool(cfg.get('filepath')))
@@ -159,6 +168,18 @@ def run_case(spec):
                     counts += m
                 else:
                     D = spec['draws']
+                    # rows whose expected number of appearances over ALL draws is below 1e-12 in total: seeing one at all
+                    # has probability < 1e-12 under the property (union bound), whatever the resolution of the generator
+                    tiny = (r > 0) & (r < 1e-18)
+                    while np.sum(r[tiny]) * D >= 1e-12 and np.any(tiny):
+                        tiny &= r < 0.1 * np.max(r[tiny])
+                    obs['negligible_weight_row_draws'] += int(np.sum(tiny)) * D
+                    if np.any(tiny) and np.sum(counts[tiny]) > 0:
+                        j = int(np.flatnonzero(tiny & (counts > 0))[0])
+                        bad('equalweight.negligible-weight-row-returned', 'row %d with r = %.3g was returned %d times in %d '
+                            'draws (boost %g); %d rows with summed r = %.3g are expected to appear %.3g times in total'
+                            % (j, r[j], int(counts[j]), D, boost, int(np.sum(tiny)), float(np.sum(r[tiny])),
+                               float(np.sum(r[tiny]) * D)), boost=boost)
                     var = D * frac * (1 - frac)
                     order = np.argsort(r, kind='stable')
                     groups = [np.arange(n)] + [g for g in np.array_split(order, 8)]
@@ -186,6 +207,31 @@ def run_case(spec):
                     n_nontrivial += int(nf >= 50)
                     continue
                 break
+            # many cheap extra draws aimed at the rows of negligible weight (a generator of limited resolution returns
+            # them at a rate of ~1e-7 per row and draw instead of never)
+            if not viols and spec.get('extra_draws'):
+                boost = 1.0
+                r = np.exp(lw - np.amax(lw)) * boost
+                D2 = int(spec['extra_draws'])
+                tiny = (r > 0) & (r < 1e-18)
+                while np.sum(r[tiny]) * D2 >= 1e-12 and np.any(tiny):
+                    tiny &= r < 0.1 * np.max(r[tiny])
+                if np.sum(tiny) >= 100:
+                    Pc = np.ascontiguousarray(P)
+                    void = np.dtype((np.void, Pc.dtype.itemsize * Pc.shape[1]))
+                    tv = Pc[tiny].view(void).ravel()
+                    hits = 0
+                    for _ in range(D2):
+                        Q = np.ascontiguousarray(_arr(s.posterior(equal_weight=True, equal_weight_boost=boost)[0]))
+                        if len(Q):
+                            hits += int(np.count_nonzero(np.isin(Q.view(void).ravel(), tv)))
+                    obs['draws'] += D2
+                    obs['negligible_weight_row_draws'] += int(np.sum(tiny)) * D2
+                    if hits:
+                        bad('equalweight.negligible-weight-row-returned', '%d rows with r < %.3g (summed r = %.3g) were '
+                            'returned %d times in %d draws at boost 1; expected %.3g times'
+                            % (int(np.sum(tiny)), float(np.max(r[tiny])), float(np.sum(r[tiny])), hits, D2,
+                               float(np.sum(r[tiny]) * D2)))
             if state_digest() != d0:
                 bad('equalweight.weighted-posterior-changed', 'the weighted posterior or a sampler statistic changed '
                     'after equal-weight draws')
